@@ -829,6 +829,10 @@ class Executor(EvalMixin, StmtMixin):
                         if ocls != want and not self.world.is_subclass_decl(ocls, want) \
                                 and not self.world.is_subclass_decl(want, ocls):
                             guard = z3.And(guard, q != oid)
+                elif dname == 'anyrefs':
+                    # every object id, allocated or not (for invariants that themselves say which ids occur)
+                    q = z3.Int(fresh_name(var))
+                    bound = SRef(RefS(dom.args[0].value), q)
                 elif dname == 'vals':
                     q = z3.Const(fresh_name(var), Val)
                     bound = SV(ValS, q)
